@@ -10,6 +10,7 @@ import SlacModel.Json
 import SlacModel.JsonText
 import SlacModel.Optimizer
 import SlacModel.Registry
+import SlacModel.Nondet
 import SlacModel.Parser
 import SlacModel.Render
 import SlacProofs.OrderSafe
@@ -314,6 +315,44 @@ def runRe (r : List String) : Option String :=
     pure (showNRes res)
   | _ => none
 
+/-- neighbours of a double in bit order (for the search of the random word behind an answer of `random`) -/
+def floatNeighbours (x : Float) : List Float :=
+  let b := x.toBits
+  [x, Float.ofBits (b + 1), Float.ofBits (b - 1), Float.ofBits (b + 2), Float.ofBits (b - 2)]
+
+/-- is there a random word `u : u64` with `randomWith u args = ans`?  `u as f64` ranges over the integer-valued doubles of
+    [0, 2^64]; the candidates are the doubles next to `x · 2^64 / m`, converted back to a word. -/
+def randomAllowed (args : List V) (ans : Stdlib.Res Float) : Bool :=
+  let probe := Nondet.randomWith (N := Float) 0 args
+  match probe, ans with
+  | .error e, .error e' => showNativeErr e == showNativeErr e'
+  | .ok _, .ok (.num x) =>
+    let m : Float := match args with | .num m :: _ => m | _ => 1.0
+    let two64 : Float := F64.ofNat (2 ^ 64)
+    let cands : List Nat := ((floatNeighbours (x * two64 / m)).filterMap fun r =>
+      if r >= 0.0 && r <= two64 && r.floor == r then some (min r.toUInt64.toNat (2 ^ 64 - 1)) else none) ++ [0, 1, 2 ^ 64 - 1, 2 ^ 63]
+    cands.any fun u => showNRes (Nondet.randomWith (N := Float) u args) == showNRes ans
+  | _, _ => false
+
+/-- `nd <hexname> <n> <args…> || <answer>`: is the recorded answer one the model allows? -/
+def runNd (r : List String) : Option String :=
+  match r with
+  | name :: n :: r => do
+    let (a, e) := splitAtBar r
+    let (args, _) ← parseN parseVal n.toNat! a []
+    let ans : Stdlib.Res Float ← match e with
+      | "ok" :: v => (parseVal v).map fun p => .ok p.1
+      | ["err", "WrongParameterType"] => some (.error .wrongParameterType)
+      | _ => none
+    let okk := match String.ofList (unhex name) with
+      | "choice" =>
+        -- complete by `choice_small_words`: the words below the list length produce every possible answer
+        (List.range (max 1 (Stdlib.smartVec args).length)).any fun w => showNRes (Nondet.choiceWith w args) == showNRes ans
+      | "random" => randomAllowed args ans
+      | _ => false
+    pure (if okk then "member" else s!"violation {showNRes ans}")
+  | _ => none
+
 def jnFloat : JsonNum Float := ⟨F64.isFinite, F64.ofInt⟩
 
 partial def canonJson : Json Float → String
@@ -357,6 +396,7 @@ def step (line : String) : String :=
     | "lay" :: r => runLay r
     | "rr" :: r => runRr r
     | "re" :: r => runRe r
+    | "nd" :: r => runNd r
     | "tmrange" :: r => TimeRange.run r
     | "scanrange" :: r => runScanRange r
     | "script" :: r => Script.run charClass caseMap r
